@@ -220,6 +220,23 @@ example : Impl.BigMap.run Nat.blt chain12 (⟨[], [], some 5⟩ : BM Nat Nat)
 example : Inv Nat.blt (⟨[(1, some 11), (3, some 34)], [2], some 5⟩ : BM Nat Nat) :=
   ⟨by decide, by decide, by decide, by decide⟩
 
+/-- a map registered as on-chain map 5 with local changes (1 ↦ 11, key 2 removed) in a context with one temporary id used -/
+def demoCtx : Ctx := ⟨1, 0, [(5, (5, false))]⟩
+def demoMap : BM Nat Nat := ⟨[(1, some 11)], [2], some 5⟩
+
+example : (aggregateLazyDiff (fun (_ : Nat) => ()) demoCtx demoMap).map (fun r => (r.1.id, r.1.action)) = some (5, .update) := by decide
+example : (aggregateLazyDiff (fun (_ : Nat) => ()) demoCtx demoMap).map (fun r => r.1.updates) = some [(1, (), some 11), (2, (), none)] := by
+  decide
+example : (aggregateLazyDiff (fun (_ : Nat) => ()) demoCtx demoMap).map (fun r => r.2) = some (⟨[], [], some 5⟩, demoCtx) := by decide
+example : (applyUpdates chain12 [(1, some 11), (2, none)] 1, applyUpdates chain12 [(1, some 11), (2, none)] 2,
+    applyUpdates chain12 [(1, some 11), (2, none)] 3) = (some 11, none, none) := by decide
+-- a fresh literal is allocated the next free id, a copied parameter as well
+example : (getBigMapDiff ⟨2, 3, [(-1, (5, true))]⟩ (-2)).1 = (none, 3, .alloc) ∧
+    (getBigMapDiff ⟨2, 3, [(-1, (5, true))]⟩ (-1)).1 = (some 5, 3, .copy) := by decide
+example : fromLiteral Nat.blt [(1, 10), (3, 30)] = some (⟨[(1, some 10), (3, some 30)], [], none⟩ : BM Nat Nat) ∧
+    fromLiteral Nat.blt [(3, 30), (1, 10)] = (none : Option (BM Nat Nat)) ∧
+    fromLiteral Nat.blt [(1, 10), (1, 30)] = (none : Option (BM Nat Nat)) := by decide
+
 /-- pinned shape (`update` iterates `self`): *insert 1; remove 1; insert 2; update 2; insert 1; GET 1* on a fresh map
 answers `None` although the dictionary holds 11, and the stored items are `[(1, None), (1, 11), (2, 21)]` —
 a `None` value and a duplicated key, so the diff lists key 1 twice -/
